@@ -660,9 +660,16 @@ Error Message: {}
                         ),
                     )
                     result = AUTH_FAILED
-                elif not key.verify_ssh_sig(blob, sig):
-                    self._log(INFO, "Auth rejected: invalid signature")
-                    result = AUTH_FAILED
+                else:
+                    try:
+                        valid = key.verify_ssh_sig(blob, sig)
+                    except Exception as e:
+                        msg = "Auth rejected: mangled signature ({}: {})"
+                        self._log(INFO, msg.format(e.__class__.__name__, e))
+                        valid = False
+                    if not valid:
+                        self._log(INFO, "Auth rejected: invalid signature")
+                        result = AUTH_FAILED
         elif method == "keyboard-interactive":
             submethods = m.get_string()
             result = self.transport.server_object.check_auth_interactive(
